@@ -42,12 +42,12 @@ fired are listed. The unmodified tree is silent.
  M8 [verified] wfg._compute_hv: `limited_sols_array[i, i + 1 :]` -> `[i, i + 2 :]`
     => "wfg|d=3..5|value-mismatch", "wfg(assume_pareto)|d=1,3,4,5|value-mismatch".
 
- NOT caught, and not catchable from the property as stated (tried): hssp._lazy_contribs_update
- `if contribs[i] < max_contrib` -> `<=`; hssp._solve_hssp_2d with the rect_diags update shifted by
- one or removed. These make the greedy choose a non-maximal contribution now and then, but the result
- still reaches (1 - 1/e) of the optimum on every enumerated input (with the update removed also on
- every duplicate-free antichain of {0..7}^2: worst ratio seen 0.68), which is all that C15 demands
- of _solve_hssp.
+ Greedy steps that are not maximal (hssp._lazy_contribs_update `<` -> `<=`; _solve_hssp_2d with the
+ rect_diags update shifted, removed or overwritten) still reach (1 - 1/e) of the optimum on every
+ small-lattice input (worst ratio seen 0.68): they are caught on the multisets with dominated points
+ (w_hsspg) and on the `ladder` family (w_ladder: geometric ladder fronts with boosted rungs and
+ near-duplicate clusters, up to 10 points, exact integer coordinates), where seed C15_c drops to
+ 0.40-0.57 of the optimum.
 """
 from __future__ import annotations
 
@@ -759,7 +759,72 @@ def w_inf(task: tuple, part: Part) -> None:
             part.sample({"fn": "extended alphabet", "d": d, "points": pts, "ranks": true_sorted}, cap=1)
 
 
-WORKERS = {"lat": w_lat, "pen": w_pen, "hssp": w_hssp, "hsspg": w_hsspg, "inf": w_inf}
+def ladder_fronts(r: int, m: int) -> Iterator[list[tuple[int, int]]]:
+    """2-d fronts on a geometric ladder (box sides (r^(m-j), r^j) * S, all boxes of equal area),
+    where up to two rungs are boosted (v * 5/4, or v * 5/4 * 1025/1024) and up to two rungs carry
+    one or two near-duplicates on their left or right side (relative offset t * 2^-10): scale
+    separation plus near-duplicate clusters is the input shape on which a greedy selection with a
+    wrong contribution update loses most. All coordinates are exact integers (S = 2^22)."""
+    S = 1 << 22
+    rungs = range(m + 1)
+    boosts = [()] + [((j, b),) for j in rungs for b in (1, 2)] + \
+        [((j1, b1), (j2, b2)) for j1, j2 in itertools.combinations(rungs, 2) for b1 in (1, 2) for b2 in (1, 2)]
+    dupopts = [("L", 1), ("L", 2), ("R", 1), ("R", 2)]
+    dups = [()] + [((j, o),) for j in rungs for o in dupopts] + \
+        [((j1, o1), (j2, o2)) for j1, j2 in itertools.combinations(rungs, 2) for o1 in dupopts for o2 in dupopts]
+    for bs in boosts:
+        bd = dict(bs)
+        for ds in dups:
+            dd = dict(ds)
+            sides: list[tuple[int, int]] = []
+            for j in rungs:
+                u, v = r ** (m - j) * S, r ** j * S
+                b = bd.get(j, 0)
+                if b >= 1:
+                    v = v * 5 // 4
+                if b == 2:
+                    v = v * 1025 // 1024
+                cluster = [(u, v)]
+                if j in dd:
+                    side, cnt = dd[j]
+                    for t in range(1, cnt + 1):
+                        if side == "L":  # larger u, smaller v
+                            cluster.insert(0, (u + t * (u >> 10), v - 3 * t * (v >> 10)))
+                        else:
+                            cluster.append((u - 3 * t * (u >> 10), v + t * (v >> 10)))
+                sides += cluster
+            pts = [(-u, -v) for u, v in sides]  # reference point (0, 0), minimisation
+            if all(a[0] < b[0] and a[1] > b[1] for a, b in zip(pts, pts[1:])):
+                yield pts
+
+
+def w_ladder(task: tuple, part: Part) -> None:
+    """_solve_hssp on every ladder front (this shard), every subset size, sorted and reversed input."""
+    _, d, rm, kmax, shard, nshards, _flag = task
+    r, m = rm
+    _quiet()
+    ref = (0, 0)
+    for j, pts in enumerate(ladder_fronts(r, m)):
+        if j % nshards != shard:
+            continue
+        part.add("ladder_fronts")
+        for opts in (pts, pts[::-1]):
+            def hv_of(pos: Sequence[int], opts: list = opts) -> int:
+                area, best_y = 0, 0
+                for x, y in sorted(opts[q] for q in pos):
+                    if y < best_y:
+                        area += (0 - x) * (best_y - y)
+                        best_y = y
+                return area
+
+            for k in range(2, min(len(opts) - 1, kmax) + 1):
+                check_hssp(part, 2, opts, ref, k, hv_of, True)
+        if shard == 0 and len(pts) >= 9:
+            part.sample({"fn": "_solve_hssp", "d": 2, "family": f"geometric ladder r={r} m={m} with boosted rungs and near-duplicate clusters",
+                         "points": pts}, cap=1)
+
+
+WORKERS = {"lat": w_lat, "pen": w_pen, "hssp": w_hssp, "hsspg": w_hsspg, "inf": w_inf, "ladder": w_ladder}
 
 
 def worker(task: tuple) -> dict:
@@ -782,7 +847,7 @@ EXT3 = (0.0, INF, -INF)
 def plan(tier: str) -> tuple[list[tuple], dict]:
     q = tier == "quick"
     tasks: list[tuple] = []
-    bounds: dict[str, list] = {"lat": [], "pen": [], "hssp": [], "hsspg": [], "inf": []}
+    bounds: dict[str, list] = {"lat": [], "pen": [], "hssp": [], "hsspg": [], "inf": [], "ladder": []}
 
     def add(kind: str, d: int, m: Any, ns: Sequence[int], shards: Sequence[int], flag: bool = True) -> None:
         bounds[kind].append({"d": d, "alphabet": (f"{{0..{m}}}^{d}" if isinstance(m, int) else f"{list(m)}^{d}"),
@@ -852,6 +917,11 @@ def plan(tier: str) -> tuple[list[tuple], dict]:
         add("hsspg", 4, 1, [3, 4], [2, 8])
         add("hsspg", 4, 2, [3], [32], False)
         add("hsspg", 5, 1, [3], [16], False)
+    # 2-d ladder fronts with near-duplicate clusters (scale separation; up to 10 points)
+    for r in ((8,) if q else (4, 8, 16)):
+        bounds["ladder"].append({"d": 2, "family": f"geometric ladder r={r}, 6 rungs, <=2 boosted, <=2 clustered", "subset_sizes": "2..7"})
+        for sh in range(32):
+            tasks.append(("ladder", 2, (r, 5), 7, sh, 32, True))
     # extended alphabet
     add("inf", 1, EXT, [1, 2, 3, 4], [1, 1, 1, 1])
     if q:
